@@ -54,7 +54,12 @@ def run_case(case: Dict, base: Path) -> Dict:
     work = Path(tempfile.mkdtemp(prefix=f"rvsa-{case['id']}-", dir=str(base)))
     try:
         make_copy(work)
-        skip = apply_edits(work, case["edits"])
+        if case.get("patch"):
+            p = subprocess.run(["git", "apply", "--include=src/python/*", "--include=specs/*", "--include=docs/*", str(case["patch"])],
+                               cwd=str(work), capture_output=True, text=True)
+            skip = None if p.returncode == 0 else f"patch does not apply to this tree: {p.stderr.strip()[:120]}"
+        else:
+            skip = apply_edits(work, case["edits"])
         if skip:
             return {"id": case["id"], "status": "skipped", "why": skip}
         # the mutated file must still compile
@@ -103,9 +108,28 @@ def evaluate(case: Dict, res: Dict) -> Tuple[bool, str]:
     return ok, "; ".join(msgs) or "as expected"
 
 
+def seeded_cases() -> List[Dict]:
+    """Confirmed property-breaking changes written by independent sub-agents (/verif/seeded/<id>/patch.diff)."""
+    out = []
+    root = VERIF / "seeded"
+    if not root.is_dir():
+        return out
+    for d in sorted(root.iterdir()):
+        mp, pp = d / "meta.json", d / "patch.diff"
+        if not (mp.exists() and pp.exists()):
+            continue
+        meta = json.loads(mp.read_text())
+        verdict = (meta.get("checks_run") or {}).get("target_verdict")
+        if verdict != "CAUGHT":
+            continue        # recorded misses (declined clauses) are listed in DESIGN.md, not asserted here
+        out.append({"id": f"seeded-{d.name}", "prop": meta["property"], "props": [meta["property"]], "edits": [], "patch": str(pp),
+                    "expect": "V", "mention": None})
+    return out
+
+
 def load_cases(prop: Optional[str] = None) -> List[Dict]:
     from sa import mutants
-    cases = mutants.CASES
+    cases = list(mutants.CASES) + seeded_cases()
     if prop:
         cases = [c for c in cases if prop in (c.get("props") or [c.get("prop")])]
         # run each case only under the requested property
